@@ -274,10 +274,13 @@ impl SwiftField for Field55ThirdReimbursementInstitution {
                 let field = Field55D::parse(value)?;
                 Ok(Field55ThirdReimbursementInstitution::D(field))
             }
-            _ => {
-                // No variant specified, fall back to default parse behavior
+            None | Some("") => {
+                // No option letter given: fall back to default parse behavior
                 Self::parse(value)
             }
+            Some(other) => Err(ParseError::InvalidFormat {
+                message: format!("Option {} is not allowed for this field", other),
+            }),
         }
     }
 
